@@ -205,6 +205,12 @@ def work_whittaker(arg):
                     'converted to bar': lambda: (lambda i_: (i_.convert_pressure(unit_to='bar'), i_)[1])(pygaps.PointIsotherm(temperature=T, temperature_unit='K', **kwp))}
         lq = [float(x) for x in keep[:8]] or [0.3 * params['n_m']]
         res_ = {k_: core.call(lambda mk_=mk_: pgc.enthalpy_sorption_whittaker(mk_(), model=name, loading=lq)) for k_, mk_ in variants.items()}
+        # the loadings may arrive in any iterable: tuple, array, Series, generator, iterator, map object (a one-shot iterable is consumed once)
+        import pandas as _pd
+        for form, mkl in (('tuple', lambda: tuple(lq)), ('ndarray', lambda: numpy.array(lq)), ('Series', lambda: _pd.Series(lq)), ('generator', lambda: (x_ for x_ in lq)),
+                          ('iterator', lambda: iter(lq)), ('map object', lambda: map(float, lq)), ('read-only array', lambda: (lambda a_: (a_.setflags(write=False), a_)[1])(numpy.array(lq))),
+                          ('reversed view', lambda: numpy.array(lq[::-1])[::-1])):
+            res_[f'loading given as {form}'] = core.call(lambda mkl=mkl: pgc.enthalpy_sorption_whittaker(variants['stored in K'](), model=name, loading=mkl()))
         # the model may be named in any letter case (as everywhere else in the library)
         for spelled in (name.lower(), name.upper(), name[0].lower() + name[1:].upper()):
             res_[f'model named {spelled!r}'] = core.call(lambda sp_=spelled: pgc.enthalpy_sorption_whittaker(variants['stored in K'](), model=sp_, loading=lq))
